@@ -426,6 +426,43 @@ def work_unary(args):
     return fails, n, hist
 
 
+def triple_domain(tier, seed):
+    """least_upper_bound of three or four intervals: every triple of the width-2 intervals, fixed samples at widths 3 and 4
+    (plus seed-dependent ones)"""
+    import itertools
+    uns = [k for k in unary_domain("quick") if k[1] is not None]
+    byw = collections.defaultdict(list)
+    for k in uns:
+        byw[k[0]].append(k)
+    out = list(itertools.product(byw[2], repeat=3))
+    for r, cnt in ((random.Random(DOMAIN_SEED + 9), 4000 if tier == "quick" else 40000), (random.Random(seed + 11), 1500)):
+        for w in (3, 4):
+            for _ in range(cnt):
+                out.append(tuple(r.choice(byw[w]) for _ in range(r.choice([3, 3, 4]))))
+    return out
+
+
+def work_triples(args):
+    ks_list = args
+    if _SI is None:
+        _init()
+    fails, n = [], 0
+    for ks in ks_list:
+        objs = [mk(_SI, k) for k in ks]
+        n += 1
+        try:
+            r = _SI.least_upper_bound(*objs)
+        except Exception as ex:  # noqa
+            if type(ex).__name__.startswith("Claripy"):
+                continue
+            fails.append(("lub3", "|".join(keystr(k) for k in ks), "exception:" + type(ex).__name__))
+            continue
+        got = set(r.eval(1 << 12)) if not r.is_empty else set()
+        if any(not set(Dom(k).sample(64)) <= got for k in ks):
+            fails.append(("lub3", "|".join(keystr(k) for k in ks), "unsound"))
+    return fails, n, collections.Counter({"lub3": n})
+
+
 def chunks(l, k):
     return [l[i:i + k] for i in range(0, len(l), k)]
 
@@ -453,6 +490,11 @@ def sweep(prop, tier, seed, procs=None, with_extra=True, known_sites=()):
             fails += f
             n += k
             hist.update({"unary_" + a: b for a, b in h.items()})
+        if prop == "C22":
+            for f, k, h in pool.imap_unordered(work_triples, chunks(triple_domain(tier, seed if with_extra else 0), 2000)):
+                fails += f
+                n += k
+                hist.update(h)
     return fails, n, hist
 
 
@@ -637,6 +679,23 @@ def correspondence(prop, tier, seed, drv, SI, stats):
             stats["corr_union"] += 1
             if m != r:
                 return {"kind": "model/implementation mismatch", "op": "union", "a": keystr(ka), "b": keystr(kb), "model": m, "real": r}
+        # pseudo_join without smart_join on the same pairs, and least_upper_bound of three and four intervals
+        for ka, kb in pairs[::3]:
+            if ka[1] is None or kb[1] is None:
+                continue
+            a, b = mk(SI, ka), mk(SI, kb)
+            m = norm_model(drv.ask(["join", "0", [a.bits, a.stride, a.lower_bound, a.upper_bound, 0], [b.bits, b.stride, b.lower_bound, b.upper_bound, 0]]))
+            r = real_res(lambda: SI.pseudo_join(a, b, False))
+            stats["corr_join_nosmart"] += 1
+            if m != r:
+                return {"kind": "model/implementation mismatch", "op": "pseudo_join(smart_join=False)", "a": keystr(ka), "b": keystr(kb), "model": m, "real": r}
+        for ks in triple_domain("quick", seed)[::(16 if tier == "quick" else 3)]:
+            objs = [mk(SI, k) for k in ks]
+            m = norm_model(drv.ask(["lub", [[o.bits, o.stride, o.lower_bound, o.upper_bound, 0] for o in objs]]))
+            r = real_res(lambda: SI.least_upper_bound(*objs))
+            stats["corr_lub"] += 1
+            if m != r:
+                return {"kind": "model/implementation mismatch", "op": "least_upper_bound", "operands": [keystr(k) for k in ks], "model": m, "real": r}
         # the queries that read the bounds pairs: max / min / eval in both signednesses (model: Model/SIQuery.v)
         for k in uns:
             if k[1] is None:
@@ -690,7 +749,9 @@ def run(prop, tier, seed, replay, make_target, rule_text, trusted, assumptions):
         bad = 0
         for nm, key in r.get("failing_inputs", []):
             ks = [parse_key(x) for x in key.split("|")]
-            if len(ks) == 2:
+            if nm == "lub3":
+                res = (work_triples([tuple(ks)])[0] or [(None, None, None)])[0][2]
+            elif len(ks) == 2:
                 res = check_binary(nm, mk(_SI, ks[0]), mk(_SI, ks[1]), Dom(ks[0]), Dom(ks[1]))
             elif nm in QUERIES:
                 res = check_queries(mk(_SI, ks[0]), Dom(ks[0])).get(nm)
@@ -706,7 +767,7 @@ def run(prop, tier, seed, replay, make_target, rule_text, trusted, assumptions):
             return 1
         return 0
     regen_all()
-    ok_make, log = coq_make([make_target, "Proofs/SIZext.vo", "Proofs/LiftSI.vo", "Proofs/SIUnionSound.vo", "Proofs/SICmpSound.vo", "Proofs/SIQuerySound.vo", "Proofs/SINotSound.vo"])
+    ok_make, log = coq_make([make_target, "Proofs/SIZext.vo", "Proofs/LiftSI.vo", "Proofs/SIUnionSound.vo", "Proofs/SICmpSound.vo", "Proofs/SIQuerySound.vo", "Proofs/SINotSound.vo", "Proofs/SILubSound.vo"])
     pr = check_props(prop) if ok_make else {"ok": False, "obligations": [
         {"name": prop + "_*", "closed": False, "axioms": ["<does not compile>"], "ok": False}], "log": log[-3000:]}
     rep.obligations(pr, "make %s && coqc -R coq CV coq/Props/%s.v (Print Assumptions)" % (make_target, prop))
